@@ -171,13 +171,25 @@ def levelVals {ν α} (M : MI ν α) (name : String) : Except Err (List Int) :=
   else if name = M.time then pure (M.rows.map (·.1.2))
   else throw Err.key
 
+/-- the entries of a column (or the rows of a frame) that sit in rows of instance `id`, in the order given
+(`_series.xs(id, level=instance)`) -/
+def xsCol {β : Type} (lv : List Int) (id : Int) (col : List β) : List β :=
+  ((lv.zip col).filter (fun q => q.1 == id)).map (·.2)
+
+/-- `X.iloc[np.argsort(pd.factorize(level)[0], kind="stable")]`: the rows brought together per instance,
+instances in order of first appearance, the rows of an instance in the order given (since fix 319b294) -/
+def groupRows {β : Type} (lv : List Int) (rows : List β) : List β :=
+  (lv.eraseDups.map (fun id => xsCol lv id rows)).flatten
+
 def fromMITo3d {ν α} (M : MI ν α) (instArg timeArg : Option String) : Except Err (Arr3 α) := do
   match instArg, timeArg with
   | some i, some t =>
-    let n := (← levelVals M i).eraseDups.length      -- len(X.groupby(level=instance_index))
-    let T := (← levelVals M t).eraseDups.length
+    let lvI ← levelVals M i
+    let lvT ← levelVals M t
+    let n := lvI.eraseDups.length                    -- len(X.groupby(level=instance_index))
+    let T := lvT.eraseDups.length
     let c := M.names.length
-    let flat := (M.rows.map (·.2)).flatten           -- X.values (row-major)
+    let flat := (groupRows lvI (M.rows.map (·.2))).flatten   -- grouped per instance, then X.values (row-major)
     if flat.length = n * T * c then
       pure (swap12 c (reshape3 n T c flat))          -- .reshape(n, T, c).swapaxes(1, 2)
     else throw Err.value
